@@ -25,6 +25,7 @@ from .. import tlc
 from .. import c05_build as B
 
 PID = "C05"
+HIDDEN_NAMES = {"index": "row labels", "num": "integer vs float number type", "branch": "dtype of the branch column"}
 
 
 def select(table, rng, thorough):
@@ -99,10 +100,10 @@ def fit_part(run, rng, thorough):
             except Exception as e:
                 run.note(f"fit {model} / {form}: not constructed ({type(e).__name__})")
                 continue
-            d = iso.model.to_dict()
-            proj = {"name": str(d["name"]), "rmse": repr(float(d["rmse"])),
-                    "params": {k: repr(float(v)) for k, v in d["parameters"].items()},
-                    "prange": [repr(float(v)) for v in d["pressure_range"]], "lrange": [repr(float(v)) for v in d["loading_range"]],
+            mdl = iso.model            # projection through attributes, independent of to_dict / hashgen
+            proj = {"name": str(mdl.name), "rmse": repr(float(mdl.rmse)),
+                    "params": {k: repr(float(v)) for k, v in mdl.params.items()},
+                    "prange": [repr(float(v)) for v in mdl.pressure_range], "lrange": [repr(float(v)) for v in mdl.loading_range],
                     "branch": iso.branch}
             ok, ident = B.safe_id(iso)
             obs.append({"form": form, "ok": ok, "id": ident, "model": proj})
@@ -143,17 +144,23 @@ def main(tier, seed):
 
     workdir = tlc.scratch("c05-")
     try:
-        obs, kept = [], []
+        obs, kept, live = [], [], []
+        # pass 1: build every object and take its identifier (no read has touched any shared state yet)
         for e in chosen:
-            o = B.observe(e, rng, 3 if not thorough else 4)
+            iso, o = B.build_and_id(e)
             if o.get("skip"):
                 run.add("routes_not_realisable")
-                run.note(f"route not realisable (export failed): {e['base']} {e['route']['lit']}/{e['route']['via']}: {o['skip']}")
+                run.note(f"route not realisable: {e['base']} {e['route']['lit']}/{e['route']['via']}: {o['skip']}")
                 continue
             kept.append(e)
+            live.append((iso, o))
+        # pass 2: read-only calls on the live objects (fills interpolator caches, creates backend states), identifier again
+        for e, (iso, o) in zip(kept, live):
+            B.do_reads(iso, e, o, rng, 3 if not thorough else 4)
             obs.append({"s": scen(e), "ok": o["ok"], "id": o["id"], "after": o["after"], "reads": o["reads"], "others": [], "error": o["error"]})
             run.count((e["base"], json.dumps(e["mut"], sort_keys=True), json.dumps(e["route"], sort_keys=True)),
                       nontrivial=not e["default"])
+        del live
         # other interpreter processes, other hash seeds
         hashseeds = [1 + seed, 4242 + seed] if thorough else [17 + seed]
         for n, hs in enumerate(hashseeds):
@@ -168,30 +175,43 @@ def main(tier, seed):
     finally:
         shutil.rmtree(workdir, ignore_errors=True)
 
-    ans = tlc.oracle("IdentityOracle", [{"k": "judge", "obs": [{k: v for k, v in o.items() if k != "error"} for o in obs]}], timeout=1500, heap="8g")[0]
+    # which descriptive transcription of hashgen applies to the tree under test (labels MODEL-DRIFT / impl_predicts only)
+    import pygaps.utilities.hashgen as hg
+    variant = "pandas-hash" if hasattr(hg, "hash_pandas_object") else "value-hash"
+    run.set(hashgen_transcription=variant)
+    ans = tlc.oracle("IdentityOracle", [{"k": "judge", "impl": variant, "obs": [{k: v for k, v in o.items() if k != "error"} for o in obs]}], timeout=1500, heap="8g")[0]
     if ans["objects"] != len(obs):
         raise MachineryError("judge lost observations")
     run.add("traces_validated_against_impl", len(obs))
     run.set(pairs_judged=ans["pairs"], offending_pairs=ans["bad_pairs"], content_classes=ans["content_classes"],
             reads_checked=ans["reads_checked"], process_checked=ans["process_checked"])
     run.cov["evaluations"] += ans["pairs"]
+    cls_of = {e["base"]: e["content"]["cls"] for e in table if e["default"]}
+    singles = {(c["class"]["cls"], c["class"]["what"][0]) for c in ans["classes"]
+               if not c["class"]["impl_predicts"] and c["class"]["kind"].startswith("same content") and len(c["class"]["what"]) == 1}
     for c in ans["classes"]:
         k = c["class"]
-        run.violation({"site": "iso_id", "cls": k["cls"], "kind": k["kind"], "what": "+".join(sorted(k["what"])),
-                       "impl_predicts": k["impl_predicts"]},
-                      {"pairs": c["count"], "example": c["example"]})
+        detail = {"pairs": c["count"], "differs_in": k["what"], "example": c["example"]}
+        if k["impl_predicts"] and k["kind"].startswith("same content"):
+            # predicted by the transcription of hashgen: one signature per hidden component (row labels / number dtype / branch dtype)
+            for comp in sorted(k["what"]):
+                run.violation({"site": "iso_id", "cls": k["cls"], "kind": k["kind"], "depends_on": HIDDEN_NAMES.get(comp, comp), "impl_predicts": True}, detail)
+        elif k["kind"].startswith("same content") and len(k["what"]) > 1 and any((k["cls"], w) in singles for w in k["what"]):
+            run.add("offending_classes_subsumed")      # explained by a pair that differs in ONE of these route factors
+        else:
+            run.violation({"site": "iso_id", "cls": k["cls"], "kind": k["kind"], "what": "+".join(sorted(k["what"])), "impl_predicts": k["impl_predicts"]}, detail)
     groups = {}
     for x in ans["no_identifier"]:
         key = (x["s"]["base"], x["error"], x["s"]["route"]["lit"])
         groups.setdefault(key, []).append(x)
     for (base, err, lit), xs in groups.items():
-        cls = "model" if base.startswith("m") and not base.startswith("meta") else ("point" if base.startswith("p") else "base")
-        run.violation({"site": "iso_id", "cls": cls, "kind": "no identifier", "route": "numbers as " + lit, "observed": err},
+        run.violation({"site": "iso_id", "cls": cls_of[base], "kind": "no identifier", "route": "numbers as " + lit, "observed": err},
                       {"count": len(xs), "example": xs[0], "error": next((o["error"] for o in obs if o["s"] == xs[0]["s"]), "")})
-    for x in ans["changed_by_reads"][:50]:
-        run.violation({"site": "iso_id", "kind": "changed by read-only calls", "base": x["s"]["base"]}, x)
-    for x in ans["changed_by_process"][:50]:
-        run.violation({"site": "iso_id", "kind": "differs in another process / PYTHONHASHSEED", "base": x["s"]["base"]}, x)
+    for x in ans["changed_by_reads"]:
+        bad_reads = sorted({r.split("!")[0] for r in x["reads"]})
+        run.violation({"site": "iso_id", "kind": "changed by read-only calls", "cls": cls_of[x["s"]["base"]]}, {**x, "reads": bad_reads})
+    for x in ans["changed_by_process"]:
+        run.violation({"site": "iso_id", "kind": "differs in another process / PYTHONHASHSEED", "cls": cls_of[x["s"]["base"]]}, x)
     if ans["drift_no_identifier"]:
         run.note(f"MODEL-DRIFT: ImplHasId disagrees with the code on {ans['drift_no_identifier']} object(s) (identifier exists where the transcription of hashgen says TypeError, or vice versa)")
     for i in (0, len(obs) // 3, 2 * len(obs) // 3):
@@ -211,3 +231,12 @@ def main(tier, seed):
     run.assume("contents are rendered from the fixed-point records of the spec with decimal arithmetic; no rendered number lies on an 8-decimal rounding tie (InvWellFormed)")
     run.assume("md5 collisions are ignored; an exception in the export step of a 'parse of an export' route makes the route unrealisable (C06), not an identity failure")
     return run.finish()
+
+
+def replay(path):
+    """./check C05 --replay <file>: show the recorded violation and re-run the check at the recorded
+    tier and seed (scenario spaces are enumerated deterministically, so the case is visited again)."""
+    with open(path) as f:
+        rec = json.load(f)
+    print("replaying", json.dumps(rec.get("sig"), sort_keys=True))
+    return main(rec.get("tier", "quick"), int(rec.get("seed", 0)))
